@@ -404,6 +404,9 @@ def native_validation(R, tier):
     corpus = ['é', 'é', 'Å', 'Å', 'ö', '가', '가', 'q̣̇', 'q̣̇', '\u0001\u001f', 'tab\there', 'nl\nx', '/',
               ' ', '\U0001f600', 'fiﬁ']
     vals += corpus + [{c: c} for c in corpus] + [[c, {c: [c]}] for c in corpus[:6]]
+    # member order is by code point (= UTF-8 byte order), not by UTF-16 code unit: the two differ exactly between U+E000..U+FFFF and the astral planes
+    for a_, b_ in (('\uffff', '\U00010000'), ('\ue000', '\U0001f600'), ('\uff5e', '\U00020000'), ('a\uffff', 'a\U00010000'), ('\ud7ff', '\ue000')):
+        vals += [{a_: 0, b_: 1}, {b_: 0, a_: 1}, {'z': [{b_: {a_: 1, b_: 2}}], a_: 0}]
     vals += [0, -1, 18446744073709551615, -9223372036854775808, [1, [2, [3, [4]]]], {'a': {'b': {'c': {'d': None}}}}, True, None, '', {}, []]
     outs, raw = canon_native(R, vals)
     bad = 0
